@@ -31,11 +31,11 @@ fn table_from(seed: u64) -> [u8; 256] {
     t
 }
 
-/// Returns a violation if any (ranker, prefilter setting) disagrees with the
-/// naive oracle (and therefore with the other configurations).
+/// C10 is a statement about builder configurations agreeing WITH EACH OTHER: every (ranker,
+/// prefilter setting) must return the same `find` result and the same `find_iter` sequence.
+/// The naive oracle is only used to say which side of a disagreement is the wrong one.
 fn c10_one(ctx: &Ctx, needle: &[u8], hay: &[u8], table: &[u8; 256], pairs_out: &mut Vec<Option<(u8, u8)>>) -> Option<Value> {
-    let e = oracle::naive_find(hay, needle);
-    let eseq = oracle::greedy_fwd(hay, needle);
+    let mut results: Vec<(String, Option<usize>, Vec<usize>, bool)> = Vec::new();
     for rk in 0..subs::N_RANKERS {
         for none in [false, true] {
             let name = format!("Finder[ranker={},prefilter={}]", subs::RANKER_NAMES[rk as usize], if none { "None" } else { "Auto" });
@@ -43,29 +43,36 @@ fn c10_one(ctx: &Ctx, needle: &[u8], hay: &[u8], table: &[u8; 256], pairs_out: &
                 let ranker = Ranker::new(rk, table, needle);
                 let f = subs::build_with_ranker(&ranker, none, needle);
                 let r = f.find(hay);
-                let run = subs::drive(f.find_iter(hay), hay.len() + 8, eseq.len(), false);
-                (r, run.items, run.runaway, run.unfused)
+                let run = subs::drive(f.find_iter(hay), hay.len() + 8, 0, false);
+                (r, run.items, run.runaway || run.unfused)
             }));
             match r {
+                // a panic in one configuration only is a difference as well; report it directly
                 Err(p) => return Some(c10_viol(ctx, &name, "panic", needle, hay, table, "no panic", &panic_msg(&p))),
-                Ok((r, items, runaway, unfused)) => {
-                    if r != e {
-                        return Some(c10_viol(ctx, &name, "find", needle, hay, table, &format!("{:?}", e), &format!("{:?}", r)));
-                    }
-                    if items != eseq || runaway || unfused {
-                        return Some(c10_viol(ctx, &name, "find_iter", needle, hay, table, &format!("{:?}", &eseq[..eseq.len().min(20)]), &format!("{:?}", &items[..items.len().min(20)])));
-                    }
-                }
+                Ok((r, items, bad)) => results.push((name, r, items, bad)),
             }
         }
         let ranker = Ranker::new(rk, table, needle);
         pairs_out.push(subs::pair_with_ranker(&ranker, needle).map(|p| (p.index1(), p.index2())));
     }
-    None
+    let first = &results[0];
+    if results.iter().all(|x| x.1 == first.1 && x.2 == first.2 && x.3 == first.3) {
+        return None;
+    }
+    // name a configuration on the wrong side
+    let e = oracle::naive_find(hay, needle);
+    let eseq = oracle::greedy_fwd(hay, needle);
+    let culprit = results.iter().find(|x| x.1 != e || x.2 != eseq || x.3).unwrap_or(&results[1]);
+    let other = results.iter().find(|x| x.1 != culprit.1 || x.2 != culprit.2).unwrap_or(first);
+    if culprit.1 != other.1 {
+        Some(c10_viol(ctx, &culprit.0, "find", needle, hay, table, &format!("{:?} (as returned by {})", other.1, other.0), &format!("{:?}", culprit.1)))
+    } else {
+        Some(c10_viol(ctx, &culprit.0, "find_iter", needle, hay, table, &format!("{:?} (as yielded by {})", &other.2[..other.2.len().min(20)], other.0), &format!("{:?}", &culprit.2[..culprit.2.len().min(20)])))
+    }
 }
 
 fn c10_viol(ctx: &Ctx, imp: &str, op: &str, needle: &[u8], hay: &[u8], table: &[u8; 256], exp: &str, obs: &str) -> Value {
-    let mut v = sub_viol(ctx, imp, op, needle, hay, Place::Mid(0), exp, obs, "a builder configuration changes the result (differs from the naive answer, which the other configurations return)");
+    let mut v = sub_viol(ctx, imp, op, needle, hay, Place::Mid(0), exp, obs, "two builder configurations (ranker / prefilter setting) return different results for the same needle and haystack");
     v["kind"] = json!("c10");
     v["table"] = json!(hex(table));
     v
@@ -214,7 +221,7 @@ fn hist_viol(ctx: &Ctx, h: &History, what: &str) -> Value {
         "property": ctx.prop, "kind": "history", "config": config, "level": ctx.level, "impl": "Finder/FinderRev", "op": "history",
         "history": hj, "needles": show(&h.needle), "haystack_len": h.hays.iter().map(|x| x.len()).sum::<usize>() + h.before.len() + h.after.len(),
         "haystack_shown": format!("{} haystacks, {}+{} ops", h.hays.len(), h.before.len(), h.after.len()),
-        "what": what, "expected": "every search equals the naive search of that haystack; clones continue the model sequence", "observed": what,
+        "what": what, "expected": "every search equals a fresh finder's search of that haystack; clones / owned forms continue where the original would", "observed": what,
         "signature": format!("{}|{}|history|{}", ctx.prop, config, mvcore::oracle::fnv(&[hj.to_string().as_bytes()])),
     })
 }
